@@ -156,12 +156,17 @@ mk_node(int type, struct pair a, struct pair b)
 	return p;
 }
 
+/* what the grammar does for `! stmt': the text of the action in
+ * src/dexpr-parser.y, handed over by the runner with the operand spelt (a.d);
+ * the reference negates the meaning of the operand */
+#if !defined GRAMMAR_NOT_ACTION
+# define GRAMMAR_NOT_ACTION	(a.d)->nega = 1
+#endif
 static struct pair
 mk_not(struct pair a)
 {
-	/* as the parser does: set the flag on the operand */
-	a.d->nega = 1;
-	rt[a.r].nega = 1;
+	GRAMMAR_NOT_ACTION;
+	rt[a.r].nega ^= 1;
 	return a;
 }
 
